@@ -310,7 +310,7 @@ pub fn run(args: Args) -> ! {
     rep.exhaustive = Some(true);
     rep.extra.insert("exhaustive_scope".into(), json!(format!("all sequences of <= {n} of 98 statements ({{a,b}}, paths <= 3), all sequences of <= 3 of 84 statements ({{a,b,c}}, paths <= 2), all inline tables in the stated scope; random sequences are sampled")));
     if rep.violations.is_empty() {
-        let run = run_tape("C09.random", &prop_random, 64, args.tier.pick(100_000, 3_000_000), args.seed, workers());
+        let run = run_tape("C09.random", &prop_random, 64, args.tier.pick(1_500_000, 10_000_000), args.seed, workers());
         finish_run(&mut rep, "random", run);
     }
     for c in ["valid", "invalid", "skipped-U1.b", "valid-with-shared-prefix"] {
